@@ -257,6 +257,62 @@ def descriptor_args(text):
     return res
 
 
+def cfi_attribute_problems(out, label):
+    """A C wrapper that allocates (CFI_allocate) or re-points (CFI_setpointer) a descriptor needs an allocatable / pointer dummy
+    on the Fortran side; a dummy declared allocatable / pointer must not be bound to a wrapper that treats it as plain data only if ...
+    Only the first direction is a hard interoperability rule and is checked."""
+    probs = []
+    need = {}  # C function -> {arg name: 'allocatable'|'pointer'}
+    for fn in sorted(os.listdir(out)):
+        if not (fn.startswith("wrap") and fn.endswith((".c", ".cpp"))):
+            continue
+        cur = None
+        for ln in open(os.path.join(out, fn), errors="replace").read().split("\n"):
+            m = re.match(r"^[A-Za-z_][\w \*]*?\b(\w+)\((.*)", ln)
+            if m and not ln.startswith(("static", "typedef", "return", "extern")):
+                cur = m.group(1)
+            for call, attr in (("CFI_allocate", "allocatable"), ("CFI_setpointer", "pointer")):
+                mm = re.search(call + r"\(\s*(\w+)", ln)
+                if mm and cur:
+                    need.setdefault(cur, {})[mm.group(1)] = attr
+    if not need:
+        return probs
+    for fn in sorted(os.listdir(out)):
+        if not fn.endswith(".f"):
+            continue
+        text = open(os.path.join(out, fn), errors="replace").read()
+        joined, pend = [], ""
+        for ln in text.split("\n"):
+            t = ln.rstrip()
+            if t.endswith("&"):
+                pend += t[:-1] + " "
+            else:
+                joined.append(pend + t)
+                pend = ""
+        cur = None
+        decls = {}
+        for ln in joined:
+            m = re.search(r'bind\(C,\s*name="(\w+)"\)', ln, re.I)
+            if m and re.match(r"\s*(pure\s+|elemental\s+)?(function|subroutine)\b", ln, re.I):
+                cur = m.group(1)
+                decls = {}
+                continue
+            if cur and re.match(r"\s*end\s+(function|subroutine)", ln, re.I):
+                for arg, attr in need.get(cur, {}).items():
+                    cand = [arg.lower(), re.sub(r"^shcfi_", "", arg.lower())]
+                    left = next((decls[c] for c in cand if c in decls), None)
+                    if left is not None and attr not in left:
+                        probs.append(("cfi-attribute %s" % cur, "%s: %s calls %s on its argument %s but the Fortran interface declares the dummy as '%s' (not %s)" % (
+                            label, cur, "CFI_allocate" if attr == "allocatable" else "CFI_setpointer", arg, left.strip(), attr)))
+                cur = None
+                continue
+            if cur and "::" in ln:
+                left, right = ln.split("::", 1)
+                for name in re.findall(r"(\w+)", right):
+                    decls[name.lower()] = left.lower()
+    return probs
+
+
 def _eval_table(defs):
     vals = {}
     for _ in range(3):
@@ -297,6 +353,7 @@ def compare_dir(out, lang, user_headers, user_incs, label):
     files = [(f, "c") for f in sorted(os.listdir(out)) if f.endswith(".h") and not f.startswith(("py", "lua"))]
     files += [(f, lang) for f in sorted(os.listdir(out)) if f.startswith("util") and f.endswith((".c", ".cpp"))]
     files += [(h, lang) for h in user_headers]
+    probs += cfi_attribute_problems(out, label)
     cfuncs, cstructs = clang_view(files, out, user_incs)
     LAYOUTS["c"] = cstructs
     LAYOUTS["f"] = {}
